@@ -58,6 +58,38 @@ func (e *Env) evalBool(x ast.Expr) *Term {
 
 func exprStr(x ast.Expr) string { return types.ExprString(x) }
 
+// all packages that may be meant by the qualifier name: imports of the current package first
+func (e *Env) lookupPkgs(name string) []*types.Package {
+	var out []*types.Package
+	p := e.pkgScope()
+	if p != nil {
+		for _, im := range p.Imports() {
+			if im.Name() == name {
+				out = append(out, im)
+			}
+		}
+		if p.Name() == name {
+			out = append(out, p)
+		}
+	}
+	if e.fr != nil {
+		for _, pk := range e.fr.v.prog.AllPackages() {
+			if pk.Pkg.Name() == name {
+				dup := false
+				for _, o := range out {
+					if o == pk.Pkg {
+						dup = true
+					}
+				}
+				if !dup {
+					out = append(out, pk.Pkg)
+				}
+			}
+		}
+	}
+	return out
+}
+
 func (e *Env) lookupPkg(name string) *types.Package {
 	p := e.pkgScope()
 	if p != nil {
@@ -98,7 +130,7 @@ func (e *Env) resolveType(x ast.Expr) types.Type {
 		}
 	case *ast.SelectorExpr:
 		if id, ok := t.X.(*ast.Ident); ok {
-			if p := e.lookupPkg(id.Name); p != nil {
+			for _, p := range e.lookupPkgs(id.Name) {
 				if o := p.Scope().Lookup(t.Sel.Name); o != nil {
 					if tn, ok := o.(*types.TypeName); ok {
 						return tn.Type()
@@ -338,15 +370,16 @@ func (e *Env) selector(t *ast.SelectorExpr) Value {
 			}
 		}
 		if !isVar && !isBound && !isLocal && !isPkgVar {
-			if p := e.lookupPkg(id.Name); p != nil {
-				o := p.Scope().Lookup(t.Sel.Name)
-				if o == nil {
-					fail("contract: %s.%s not found", id.Name, t.Sel.Name)
+			if cands := e.lookupPkgs(id.Name); len(cands) > 0 {
+				for _, p := range cands {
+					if o := p.Scope().Lookup(t.Sel.Name); o != nil {
+						if v, ok := e.objValue(o); ok {
+							return v
+						}
+						fail("contract: %s.%s is not a constant or variable", id.Name, t.Sel.Name)
+					}
 				}
-				if v, ok := e.objValue(o); ok {
-					return v
-				}
-				fail("contract: %s.%s is not a constant or variable", id.Name, t.Sel.Name)
+				fail("contract: %s.%s not found", id.Name, t.Sel.Name)
 			}
 		}
 	}
@@ -515,6 +548,10 @@ func (e *Env) indexExpr(t *ast.IndexExpr) Value {
 		return Scalar{ByteAt(b.T, i)}
 	case Slice:
 		i := e.toTerm(e.eval(t.Index))
+		if isNilConst(b) {
+			// indexing a nil slice inside a guarded expression: an arbitrary value
+			return e.st.symValue(b.Elem, UF("nilindex", SInt, i))
+		}
 		a, ok := e.st.arrayCell(b.Back, b.Elem)
 		if !ok {
 			fail("contract: slice without backing cell")
@@ -623,6 +660,11 @@ func (e *Env) callExpr(t *ast.CallExpr) Value {
 			return Scalar{x.Len}
 		case Array:
 			return Scalar{e.st.arrayLen(x)}
+		case MapRef:
+			if isNilConst(x) {
+				return Scalar{Int(0)}
+			}
+			return Scalar{e.st.mapLen(e.st.mapCell(e.st.canon(x).(MapRef)))}
 		}
 		fail("contract: len of %T", arg(0))
 	case "forall", "exists":
@@ -812,6 +854,18 @@ func (e *Env) storePtr(p Ptr, v Value, t types.Type) {
 // lvalue: address and type of x.f, *p
 func (e *Env) lvalue(x ast.Expr) (Ptr, types.Type) {
 	switch t := x.(type) {
+	case *ast.Ident:
+		// package-level variable
+		if ps := e.pkgScope(); ps != nil && e.fr != nil {
+			if o, ok := ps.Scope().Lookup(t.Name).(*types.Var); ok {
+				if sp := e.fr.v.prog.Package(o.Pkg()); sp != nil {
+					if gv := sp.Var(o.Name()); gv != nil {
+						return e.fr.v.globalPtr(e.st, gv).(Ptr), o.Type()
+					}
+				}
+			}
+		}
+		fail("contract: unsupported lvalue %s", t.Name)
 	case *ast.ParenExpr:
 		return e.lvalue(t.X)
 	case *ast.StarExpr:
